@@ -637,7 +637,7 @@ var recRandom = ev.New(prop, "random-objects",
 		"or an EC key/signature with a leading zero byte, or a flip of the last bit of a field").Require("jws", "jwe", "block-edge", "last-bit", "sig-leading-zero")
 
 func TestRandomObjects(t *testing.T) {
-	ev.Rapid(t, "random-objects", 300, 20000, func(t *rapid.T) {
+	ev.Rapid(t, "random-objects", 300, 80000, func(t *rapid.T) {
 		flips := rapid.SliceOfN(rapid.IntRange(0, 1<<20), 4, 4).Draw(t, "flips")
 		size := rapid.IntRange(0, 600).Draw(t, "size")
 		if rapid.Bool().Draw(t, "sizek") {
